@@ -206,12 +206,15 @@ func fragCorrMalformed(c *Ctx) {
 			used += len(t)
 			cases = append(cases, t)
 			c.Res.CaseInputs = appendCase(c.Res.CaseInputs, "mismatch_fragment_malformed", bad)
+			c.Res.CaseInputs = appendCase(c.Res.CaseInputs, "mismatch_envelope_malformed", bad)
 			c.Res.Traces++
 		}
 	}
 	c.caseSB.WriteString(coqCaseHeader + "From DV Require Import Model.FragSkel Model.Link Model.Fragment Model.FragCases Gen.FragTbl.\nLocal Open Scope Z_scope.\n")
 	c.caseSB.WriteString("Definition fcases_bad : list fcase := [\n" + strings.Join(cases, ";\n") + "].\n")
-	c.caseSB.WriteString("Definition mismatch_fragment_malformed := Eval vm_compute in bad_fcases frag_tbl ast_stmt_kinds ast_decl_kinds fcases_bad.\nPrint mismatch_fragment_malformed.\nLocal Close Scope Z_scope.\n")
+	c.caseSB.WriteString("Definition mismatch_fragment_malformed := Eval vm_compute in bad_fcases frag_tbl ast_stmt_kinds ast_decl_kinds fcases_bad.\nPrint mismatch_fragment_malformed.\n")
+	// the envelope of fragment_no_nil_dereference, on the partial trees of broken sources
+	c.caseSB.WriteString("From DV Require Import Proofs.FragSafe Model.WalkCases.\nDefinition mismatch_envelope_malformed := Eval vm_compute in bad_idx (fun c => frag_envelope frag_tbl (fc_tree c)) 0 fcases_bad.\nPrint mismatch_envelope_malformed.\nLocal Close Scope Z_scope.\n")
 }
 
 func fragCorr(c *Ctx) {
@@ -225,6 +228,7 @@ func fragCorr(c *Ctx) {
 			used += len(t)
 			cases = append(cases, t)
 			c.Res.CaseInputs = appendCase(c.Res.CaseInputs, "mismatch_fragment", src)
+			c.Res.CaseInputs = appendCase(c.Res.CaseInputs, "mismatch_envelope", src)
 			c.Res.Traces++
 		}
 	}
@@ -237,7 +241,8 @@ func fragCorr(c *Ctx) {
 	}
 	c.caseSB.WriteString(coqCaseHeader + "From DV Require Import Model.FragSkel Model.Link Model.Fragment Model.FragCases Gen.FragTbl.\nLocal Open Scope Z_scope.\n")
 	c.caseSB.WriteString("Definition fcases : list fcase := [\n" + strings.Join(cases, ";\n") + "].\n")
-	c.caseSB.WriteString("Definition mismatch_fragment := Eval vm_compute in bad_fcases frag_tbl ast_stmt_kinds ast_decl_kinds fcases.\nPrint mismatch_fragment.\nLocal Close Scope Z_scope.\n")
+	c.caseSB.WriteString("Definition mismatch_fragment := Eval vm_compute in bad_fcases frag_tbl ast_stmt_kinds ast_decl_kinds fcases.\nPrint mismatch_fragment.\n")
+	c.caseSB.WriteString("From DV Require Import Proofs.FragSafe Model.WalkCases.\nDefinition mismatch_envelope := Eval vm_compute in bad_idx (fun c => frag_envelope frag_tbl (fc_tree c)) 0 fcases.\nPrint mismatch_envelope.\nLocal Close Scope Z_scope.\n")
 }
 
 // Correspondence of the composed model fragment ; link ; decorate (Model/Decorate.v) against the
